@@ -87,7 +87,7 @@ func init() {
 			pi := func(n string) int { return model.PoolIndex(pool, n) }
 			rd := VOp{K: "tokread", DS: "A", L: 0}
 			sc := SchedScenario{Name: "R1-two-writers-vs-token-reader", Datasets: []string{"A"}, IDs: vIDs, Oracle: "tokens",
-				Pre: []VOp{{K: "batch", DS: "A", Ents: []VEnt{{"e1", pi("v1")}}}},
+				Pre:     []VOp{{K: "batch", DS: "A", Ents: []VEnt{{"e1", pi("v1")}}}},
 				Threads: [][]VOp{{{K: "batch", DS: "A", Ents: []VEnt{{"e2", pi("v1")}}}}, {{K: "batch", DS: "A", Ents: []VEnt{{"e3", pi("v2")}}}}, {rd, rd, rd}}}
 			bound, sb := 1, 60
 			if !r.Quick() {
